@@ -112,6 +112,27 @@ func main() {
 		}
 		return
 	}
+	if strings.HasPrefix(*dump, "sxn:") {
+		r := newReport("dump")
+		c, err := loadCtx(*repo, amd64, r)
+		if err != nil {
+			fmt.Fprintln(os.Stderr, err)
+			os.Exit(2)
+		}
+		fd := c.Decl(strings.TrimPrefix(*dump, "sxn:"))
+		if fd == nil {
+			fmt.Fprintln(os.Stderr, "no such function")
+			os.Exit(2)
+		}
+		paths, why := c.runPaths(fd)
+		if why != "" {
+			fmt.Println("why:", why)
+		}
+		for i, p := range paths {
+			fmt.Printf("== path %d\n%s", i+1, c.pathStr(p, "  "))
+		}
+		return
+	}
 	p := registry[*prop]
 	if p == nil {
 		fmt.Fprintf(os.Stderr, "unknown property %q\n", *prop)
